@@ -217,7 +217,9 @@ func (w *world) buildOps(rs *regState, q *BuildReq) (ops []*operator.Operator, p
 		}
 		return []*operator.Operator{op}, nil, nil
 	}
-	none := func(why string) ([]*operator.Operator, *regState, error) { return nil, nil, fmt.Errorf("not applicable: %s", why) }
+	none := func(why string) ([]*operator.Operator, *regState, error) {
+		return nil, nil, fmt.Errorf("not applicable: %s", why)
+	}
 	switch q.Kind {
 	case "transferLeader":
 		if len(s.voters) == 0 || s.r.Leader == 0 {
